@@ -44,11 +44,11 @@ var fkinds = []fkind{
 			SectionPath: []string{"Intro"}, ElementTypes: []string{"paragraph"}, EstimatedTokens: 10}}
 	}},
 	{"G", func() *rag.Chunk { // wide page span, huge token count
-		return &rag.Chunk{ID: "G", Text: "x", Metadata: rag.ChunkMetadata{PageStart: 1, PageEnd: 9, SectionTitle: "Deep",
+		return &rag.Chunk{ID: "G", Text: "x ÉCOLE ÜBER ПРИВЕТ ΑΘΗΝΑ STRAẞE", Metadata: rag.ChunkMetadata{PageStart: 1, PageEnd: 9, SectionTitle: "Deep",
 			ElementTypes: []string{""}, EstimatedTokens: math.MaxInt32}}
 	}},
 	{"H", func() *rag.Chunk { // smallest positive token estimate, page 0 (a negative count is not a valid chunk: exports omit non-positive counts)
-		return &rag.Chunk{ID: "", Text: "o w", Metadata: rag.ChunkMetadata{PageStart: 0, PageEnd: 0, SectionTitle: "Methods",
+		return &rag.Chunk{ID: "", Text: "o w école über Привет αθηνα straße", Metadata: rag.ChunkMetadata{PageStart: 0, PageEnd: 0, SectionTitle: "Methods",
 			SectionPath: []string{"Methods, Results"}, ElementTypes: []string{"list", "list"}, EstimatedTokens: 1}}
 	}},
 }
@@ -62,15 +62,12 @@ type pred struct {
 	ident bool // accepts everything in the kinds above
 }
 
-// asciiLower: case-insensitive comparison restricted to what every definition of "case-insensitive" agrees on for
-// the strings of this space (ASCII letters; everything else compared exactly).
+// lower: the case-insensitive reading the library documents for Search (strings.ToLower on both sides), written per rune.
+// The strings of this space only contain letters whose upper/lower forms are a one-to-one pair under every common
+// definition of case-insensitivity (ASCII, Latin-1 É/é Ü/ü, Cyrillic, Greek without final sigma, ẞ/ß whose two forms
+// differ in byte length); İ/ı are left out because unicode.ToLower and simple case folding disagree on them.
 func lower(s string) string {
-	return strings.Map(func(r rune) rune {
-		if r < unicode.MaxASCII {
-			return unicode.ToLower(r)
-		}
-		return r
-	}, s)
+	return strings.Map(unicode.ToLower, s)
 }
 
 func containsFold(text, kw string) bool {
@@ -152,7 +149,8 @@ func predicates() []pred {
 			func(c *rag.Chunk) bool { return c.Metadata.EstimatedTokens <= n })
 	}
 	// Search: "chunks containing a keyword (case-insensitive)"
-	for _, k := range []string{"hello", "HELLO", "World", "o w", "", "\x00", "🙂", ",", "\r\n", "\"q\"", "hello world!", "x", "zzz"} {
+	for _, k := range []string{"hello", "HELLO", "World", "o w", "", "\x00", "🙂", ",", "\r\n", "\"q\"", "hello world!", "x", "zzz",
+		"école", "ÉCOLE", "über", "привет", "ПРИВЕТ", "αθηνα", "ΑΘΗΝΑ", "straße", "STRAẞE"} {
 		k := k
 		add("search:"+k, func(cc *rag.ChunkCollection) *rag.ChunkCollection { return cc.Search(k) },
 			func(c *rag.Chunk) bool { return containsFold(c.Text, k) })
@@ -362,7 +360,7 @@ func judgeFilter(e *harness.Env, desc string, base []*rag.Chunk, p1 pred, i2 int
 
 // a family-covering subset of the predicates for the triple product
 var triplePreds = []string{"section:Intro", "section:", "page:1", "page:4", "pages:2..5", "pages:1..10", "etype:paragraph", "etype:table",
-	"tables", "lists", "images", "mintok:10", "maxtok:9", "mintok:-2147483648", "search:hello", "search:", "search:zzz",
+	"tables", "lists", "images", "mintok:10", "maxtok:9", "mintok:-2147483648", "search:hello", "search:", "search:zzz", "search:привет",
 	"custom:true", "custom:false", "custom:idA"}
 
 func refSelect(base []*rag.Chunk, ps ...pred) []*rag.Chunk {
